@@ -97,3 +97,10 @@ Theorem C15_range_tokens :
   /\ is_lnum (TLit (LInt (s2l "120"))) 120 /\ is_lnum (TLit (LInt (s2l "300"))) 300.
 Proof. exact range_tokens. Qed.
 Print Assumptions C15_range_tokens.
+
+(* the largest line number and the longest line are the source's (coq/Gen/SourceTables.v is regenerated from /repo/src by
+   tools/tables.py on every run; Proofs/SourceTables.v) *)
+From BL Require Import Mach.Runtime Gen.SourceTables Proofs.SourceTables.
+Theorem C15_line_limits_are_the_sources : src_max_line_number = 65529 /\ MAX_LINE_LEN = src_max_line_len.
+Proof. exact (conj (proj1 limits_are_the_sources) (proj1 (proj2 limits_are_the_sources))). Qed.
+Print Assumptions C15_line_limits_are_the_sources.
